@@ -32,13 +32,19 @@ type s01Conn struct {
 	closed    int
 	writeFail bool
 	started   []*msg.StartWorkConn
+	v6        bool // the peer reached frps over IPv6
 }
 
 func (c *s01Conn) Read(p []byte) (int, error)         { return 0, io.EOF }
 func (c *s01Conn) Write(p []byte) (int, error)        { return len(p), nil }
 func (c *s01Conn) Close() error                       { c.closed++; return nil }
 func (c *s01Conn) LocalAddr() net.Addr                { return s01Addr{"10.0.0.1:80"} }
-func (c *s01Conn) RemoteAddr() net.Addr               { return s01Addr{"9.9.9.9:4321"} }
+func (c *s01Conn) RemoteAddr() net.Addr {
+	if c.v6 {
+		return s01Addr{"[2001:db8::7]:4321"}
+	}
+	return s01Addr{"9.9.9.9:4321"}
+}
 func (c *s01Conn) SetDeadline(t time.Time) error      { return nil }
 func (c *s01Conn) SetReadDeadline(t time.Time) error  { return nil }
 func (c *s01Conn) SetWriteDeadline(t time.Time) error { return nil }
@@ -255,7 +261,7 @@ func VerifC01ServerStack() {
 	w1 := &s01Conn{name: "w1", writeFail: zzverif.Bool("firstWorkConnDead")}
 	w2 := &s01Conn{name: "w2", writeFail: zzverif.Bool("secondWorkConnDead")}
 	s01.pool = []*s01Conn{w1, w2}
-	user := &s01Conn{name: "user"}
+	user := &s01Conn{name: "user", v6: zzverif.Bool("userOverIPv6")}
 
 	bp.handleUserTCPConnection(user)
 
@@ -295,7 +301,12 @@ func VerifC01ServerStack() {
 	if len(wire.started) == 1 {
 		s := wire.started[0]
 		zzverif.Assert(s.ProxyName == "p1", "C01.start.announces-this-proxy")
-		zzverif.Assert(s.SrcAddr == "9.9.9.9" && s.SrcPort == 4321 && s.DstAddr == "10.0.0.1" && s.DstPort == 80, "C01.start.carries-the-user's-real-address")
+		wantSrc := "9.9.9.9"
+		if user.v6 {
+			wantSrc = "2001:db8::7" // the bare address, as the client's resolver and the PROXY header need it
+			zzverif.Reach("C01.start.user-over-ipv6")
+		}
+		zzverif.Assert(s.SrcAddr == wantSrc && s.SrcPort == 4321 && s.DstAddr == "10.0.0.1" && s.DstPort == 80, "C01.start.carries-the-user's-real-address")
 	}
 	kinds, keyOK, limitedBoth, ends := s01Chain(s01.joinA, wire)
 	want := ""
